@@ -273,3 +273,33 @@ Example C07_ex_nested :
   = Ok (VDict [([x6d], VInt 1); ([x63], VList [VDict [([x6d], VInt 2); ([x70], VInt 1)]; VDict [([x6d], VInt 2); ([x70], VInt 11)]])], 0%Z).
 Proof. vm_compute; reflexivity. Qed.
 ''')
+
+PROPS['C20'] = dict(
+    title='C20 - result containers and display helpers are faithful',
+    requires=['TransformFacts'],
+    prelude='Local Open Scope nat_scope.',
+    theorems=[
+        ('ContainerFacts', 'ceq_ignores_private', 'Container equality ignores underscore-prefixed entries on both sides (any containers).'),
+        ('ContainerFacts', 'ceq_spec', 'It agrees with plain-dict equality on the remaining entries: same public keys, equal values (insertion order plays no role).'),
+        ('ContainerFacts', 'ceq_refl', 'Reflexive on well-formed values (unique keys, no NaN), recursively through nested containers and lists.'),
+        ('ContainerFacts', 'ceq_sym', 'Symmetric on well-formed values, recursively.'),
+        ('HeapFacts', 'load_agree', 'What an object denotes depends only on the objects reachable from it.'),
+        ('HeapFacts', 'deepcopy_good', 'deepcopy allocates only fresh objects, which reference only fresh objects.'),
+        ('HeapFacts', 'mutation_confined', 'A set / delete / append reached through the copy touches only fresh objects.'),
+        ('HeapFacts', 'deepcopy_independent', 'deepcopy / pickle independence at every depth: after ANY history of mutations of the copy the original denotes the same value.'),
+        ('HeapFacts', 'stored_deepcopy_independent', '... for every container built from a value (the closedness premise is established, not assumed).'),
+        ('HeapFacts', 'deepcopy_keeps_attribute_view', 'Objects obtained by deepcopy / pickle keep the attribute view and the same keys in the same order.'),
+        ('HeapFacts', 'shallowcopy_keeps_attribute_view', 'Objects obtained by copy keep the attribute view and the same entries.'),
+        ('HexFacts', 'split_join', 'Splitting a joined text on the separator gives the lines back.'),
+        ('HexFacts', 'undump_dump_line', 'One dumped line undumps to its bytes, for any offset width and line size.'),
+        ('HexFacts', 'hexundump_hexdump', 'hexundump inverts hexdump for EVERY byte string and EVERY positive line size (character-level model, both offset widths).'),
+    ],
+    examples='''
+Example C20_ex_eq :
+  val_eqb (VDict [([x61], VInt 1); ([x5f; x69; x6f], VInt 9); ([x62], VList [VDict [([x78], VBool true)]])])
+          (VDict [([x62], VList [VDict [([x78], VInt 1); ([x5f; x7a], VNone)]]); ([x61], VInt 1)]) = true.
+Proof. vm_compute; reflexivity. Qed.
+Example C20_ex_hex :
+  match hexdump [x30; x0a; xff; x20; x41] 2 with Some t => hexundump t 2 | None => None end = Some [x30; x0a; xff; x20; x41].
+Proof. vm_compute; reflexivity. Qed.
+''')
